@@ -414,7 +414,21 @@ func c05(r *core.Run) {
 				r.Fn(core.FuncName(f))
 				q, ok := core.Forward(core.Args(c)[0]).(*ssa.Call)
 				if !ok || core.CalleeName(q) != "reflect.ValueOf" {
-					o.Fail(posOf(c), "%s: converts %s, whose origin the rule cannot follow", core.FuncName(f), core.Describe(core.Args(c)[0]))
+					// a reflect.Value of unknown origin (a sanitising helper's parameter): the
+					// test must be local, on this very value and the very type converted to
+					rv, typ := core.Args(c)[0], core.Args(c)[1]
+					rvKind := func(v ssa.Value) bool {
+						k, ok := core.Forward(v).(*ssa.Call)
+						return ok && !k.Call.IsInvoke() && core.CalleeName(k) == "(reflect.Value).Kind" && sameVal(k.Call.Args[0], rv)
+					}
+					typKind := func(v ssa.Value) bool {
+						k, ok := core.Forward(v).(*ssa.Call)
+						return ok && k.Call.IsInvoke() && k.Call.Method.Name() == "Kind" && sameVal(k.Call.Value, typ)
+					}
+					atom := core.Cmp(token.EQL, typKind, rvKind)
+					if core.EdgeCount(f, atom) == 0 || requiresX(f, core.Is(c), atom) != nil {
+						o.Fail(posOf(c), "%s: converts %s to %s without v.Kind() == type.Kind() having been established on every path: a value of another kind is truncated, wrapped or re-interpreted silently", core.FuncName(f), core.Describe(rv), core.Describe(typ))
+					}
 					continue
 				}
 				if ok, where := guarded(f, c, q.Call.Args[0], 4); !ok {
@@ -1081,6 +1095,91 @@ func c05(r *core.Run) {
 		}
 		c05KindRule(r, o, mapFuncs)
 	})
+	// ------------------------------------------------------------------ D7 (beyond DESIGN)
+	r.Check("D7/K8/reflect-set-assignable", "in lib/mapping a reflect.Value derived from a document value (reflect.ValueOf of an interface value or of a type-switch binding, Index/MapIndex/MapKeys/Elem of such, passed through reflect.Value parameters/results) reaches the source operand of reflect.Value.Set or the key/element operands of SetMapIndex only as result #0 of a sanitising helper under err == nil (by role: every non-error return is the value itself under v.Type().AssignableTo(typ), a Convert(T) result or a fresh reflect.New(T), T computed from typ), or on a path where its Type().AssignableTo(...) succeeded or its type was compared equal; a key is not sanitised for the element type nor vice versa", func(o *core.O) {
+		if !o.Need(len(mapFuncs) > 0, "package "+mapPkg) {
+			return
+		}
+		c05AssignRule(r, o, mapFuncs)
+	})
+
+	r.Check("D1/K6/decimal-parse", "numbers that arrive as text are parsed as decimal 64-bit values: every strconv.ParseInt/ParseUint in the unmarshalling packages passes base 10 and bitSize 64, ParseFloat bitSize 64 (base 0 would read 0100 as 64 and accept 0x10 / 1_000)", func(o *core.O) {
+		n := 0
+		for _, rel := range []string{"lib/mapping", "lib/conf", "api/httpx", "internal/encoding", "api/internal/encoding"} {
+			for _, f := range p.PkgFuncs(rel) {
+				for _, c := range core.Calls(f, core.CallTo("strconv.ParseInt", "strconv.ParseUint", "strconv.ParseFloat")) {
+					n++
+					r.Fn(core.FuncName(f))
+					args := core.Args(c)
+					name := core.Short(core.CalleeName(c))
+					if name == "strconv.ParseFloat" {
+						if b, ok := core.ConstInt(args[1]); !ok || b != 64 {
+							o.Fail(p.InstrPos(c), "%s: ParseFloat bitSize is %s, expected 64", core.FuncName(f), core.Describe(args[1]))
+						}
+						continue
+					}
+					if b, ok := core.ConstInt(args[1]); !ok || b != 10 {
+						o.Fail(p.InstrPos(c), "%s: %s base is %s, expected 10 (the document's text must mean the same number in every field)", core.FuncName(f), name, core.Describe(args[1]))
+					}
+					if b, ok := core.ConstInt(args[2]); !ok || b != 64 {
+						o.Fail(p.InstrPos(c), "%s: %s bitSize is %s, expected 64 (narrowing is checked separately by Overflow*)", core.FuncName(f), name, core.Describe(args[2]))
+					}
+				}
+			}
+		}
+		o.Site(n)
+	})
+
+	r.Check("D5/K6/yaml-numbers-stay-numbers", "the YAML→JSON bridge turns every Go numeric type a YAML decoder can produce into a JSON number (a numeric type missing from the case list becomes a JSON string, so the same content means different things in YAML and JSON)", func(o *core.O) {
+		want := []string{"int", "int8", "int16", "int32", "int64", "uint", "uint8", "uint16", "uint32", "uint64", "float32", "float64"}
+		n := 0
+		for _, f := range p.PkgFuncs("internal/encoding") {
+			// role: a function that type-switches an `any` and converts some cases to json.Number
+			toNum := core.Instrs(f, func(in ssa.Instruction) bool {
+				c, ok := in.(*ssa.Call)
+				if !ok {
+					return false
+				}
+				if callee := c.Call.StaticCallee(); callee != nil && callee.Signature.Results().Len() == 1 &&
+					callee.Signature.Results().At(0).Type().String() == "encoding/json.Number" {
+					return true
+				}
+				return false
+			})
+			asserts := core.Instrs(f, func(in ssa.Instruction) bool {
+				ta, ok := in.(*ssa.TypeAssert)
+				return ok && ta.CommaOk
+			})
+			if len(toNum) == 0 || len(asserts) == 0 {
+				continue
+			}
+			n++
+			r.Fn(core.FuncName(f))
+			// which asserted types lead to the number conversion without passing another successful assertion?
+			covered := map[string]bool{}
+			for _, a := range asserts {
+				ta := a.(*ssa.TypeAssert)
+				okEdges, _ := core.EdgesOf(f, core.BoolVal(func(v ssa.Value) bool {
+					e, ok := v.(*ssa.Extract)
+					return ok && e.Tuple == ssa.Value(ta) && e.Index == 1
+				}))
+				// from the success edge, the conversion must be reached before any other comma-ok test
+				if w := core.ReachableFromEdges(okEdges, core.Is(toNum...), func(in ssa.Instruction) bool {
+					_, isIf := in.(*ssa.If)
+					return isIf
+				}); w != nil {
+					covered[ta.AssertedType.String()] = true
+				}
+			}
+			for _, t := range want {
+				if !covered[t] {
+					o.Fail(p.Pos(f.Pos()), "%s: a value of type %s is not converted to a JSON number", core.FuncName(f), t)
+				}
+			}
+		}
+		o.Site(n)
+	})
+
 }
 
 func b2i(b bool) int64 {
